@@ -24,7 +24,8 @@ def predicate(name):
 
 
 def load():
-    path = os.path.join(VERIF_DIR, "known_findings.json")
+    # the committed file; the override exists only for the self-test of the KNOWN-FINDING path
+    path = os.environ.get("VERIF_KNOWN_FINDINGS") or os.path.join(VERIF_DIR, "known_findings.json")
     if not os.path.exists(path):
         return []
     with open(path) as f:
